@@ -1,0 +1,34 @@
+//go:build verif
+
+package estargz
+
+// Verification hook of property C02 (build tag "verif" only): exposes the entry-name
+// normalisation to the correspondence harness under /verif. No behaviour change.
+
+// VerifCleanEntryNameC02 exposes cleanEntryName.
+func VerifCleanEntryNameC02(name string) string { return cleanEntryName(name) }
+
+// VerifTOCEntryC02 is the part of a TOC entry that decides which chunks share a compression
+// member and are therefore handed to the pre-reader of fileReader.ReadAt.
+type VerifTOCEntryC02 struct {
+	Name          string
+	Type          string
+	Size          int64
+	Offset        int64
+	InnerOffset   int64
+	ChunkOffset   int64
+	ChunkSize     int64
+	ChunkTopIndex int
+}
+
+// VerifTOCEntriesC02 lists the entries of the opened TOC in TOC order (after initFields).
+func VerifTOCEntriesC02(r *Reader) []VerifTOCEntryC02 {
+	out := make([]VerifTOCEntryC02, 0, len(r.toc.Entries))
+	for _, e := range r.toc.Entries {
+		out = append(out, VerifTOCEntryC02{
+			Name: e.Name, Type: e.Type, Size: e.Size, Offset: e.Offset, InnerOffset: e.InnerOffset,
+			ChunkOffset: e.ChunkOffset, ChunkSize: e.ChunkSize, ChunkTopIndex: e.chunkTopIndex,
+		})
+	}
+	return out
+}
